@@ -476,13 +476,29 @@ fn gen_desc(rng: &mut StdRng, ri: &[BigNum], rr: &[Num], maxlimbs: usize, mix: &
 }
 
 fn run_desc(rec: &mut Recorder, desc: &Value, ri: &mut Vec<BigNum>, rr: &mut Vec<Num>) {
-    match guarded(|| apply(desc, ri, rr)) {
-        Ok(evs) => {
+    // the operation runs on a scratch thread that owns copies of the registers; on success the
+    // registers are taken back, on a time-out the thread is abandoned and the history restarts
+    use std::sync::mpsc;
+    let (tx, rx) = mpsc::channel();
+    let (mut ri2, mut rr2, d2) = (ri.clone(), rr.clone(), desc.clone());
+    std::thread::spawn(move || {
+        let r = guarded(|| apply(&d2, &mut ri2, &mut rr2));
+        let _ = tx.send((r, ri2, rr2));
+    });
+    let outcome = rx.recv_timeout(std::time::Duration::from_secs(10));
+    match outcome {
+        Ok((Ok(evs), ri2, rr2)) => {
+            *ri = ri2;
+            *rr = rr2;
             for e in evs {
                 rec.emit(e);
             }
         }
-        Err(msg) => {
+        other => {
+            let msg = match other {
+                Ok((Err(m), _, _)) => m,
+                _ => "hang: the operation did not return within 10 s".to_string(),
+            };
             rec.emit(json!({"ev":"panic","msg":msg,"op":desc}));
             // registers may be in any state: restart the history
             let reset = json!({"ev":"reset"});
@@ -532,6 +548,7 @@ fn record(seed: u64, events: usize, maxlimbs: usize, out: &str, mix: &str, cap: 
         }
     }
     rec.out.flush().unwrap();
+    std::process::exit(0); // do not wait for abandoned workers
 }
 
 /// re-execute a recorded history (its operation descriptors) against the current code
@@ -556,15 +573,36 @@ fn reexec(input: &str, out: &str) {
         }
     }
     rec.out.flush().unwrap();
+    std::process::exit(0);
 }
 
 /// R direction: every line is a case enumerated by TLC with the specification's results.
+/// Each case runs on a worker thread with a deadline: an operation of the code under test that does
+/// not return is data (a mismatch), not a reason for the harness to hang.
 fn replay(input: &str) {
+    use std::sync::mpsc;
     let f = std::io::BufReader::new(std::fs::File::open(input).unwrap());
     let mut n = 0usize;
     let mut bad = 0usize;
     let stdout = std::io::stdout();
     let mut out = stdout.lock();
+    let spawn_worker = || {
+        let (tx_req, rx_req) = mpsc::channel::<Value>();
+        let (tx_res, rx_res) = mpsc::channel::<Vec<String>>();
+        std::thread::spawn(move || {
+            for c in rx_req {
+                let r = match guarded(|| replay_case(&c)) {
+                    Ok(v) => v,
+                    Err(m) => vec![format!("panic: {}", m)],
+                };
+                if tx_res.send(r).is_err() {
+                    break;
+                }
+            }
+        });
+        (tx_req, rx_res)
+    };
+    let (mut tx, mut rx) = spawn_worker();
     for line in f.lines() {
         let line = line.unwrap();
         if line.trim().is_empty() {
@@ -572,10 +610,16 @@ fn replay(input: &str) {
         }
         let c: Value = serde_json::from_str(&line).unwrap();
         n += 1;
-        let res = guarded(|| replay_case(&c));
-        let fails = match res {
+        tx.send(c.clone()).unwrap();
+        let fails = match rx.recv_timeout(std::time::Duration::from_secs(10)) {
             Ok(v) => v,
-            Err(m) => vec![format!("panic: {}", m)],
+            Err(_) => {
+                // abandon the stuck worker and continue with a fresh one
+                let (t2, r2) = spawn_worker();
+                tx = t2;
+                rx = r2;
+                vec!["hang: an operation did not return within 10 s".to_string()]
+            }
         };
         if !fails.is_empty() {
             bad += 1;
@@ -583,6 +627,8 @@ fn replay(input: &str) {
         }
     }
     writeln!(out, "{}", json!({"done": true, "cases": n, "bad": bad})).unwrap();
+    out.flush().unwrap();
+    std::process::exit(0); // do not wait for abandoned workers
 }
 
 fn replay_case(c: &Value) -> Vec<String> {
